@@ -134,6 +134,25 @@ func c11Command(e *core.Env) {
 			e.Violation("C11:command:"+strings.TrimPrefix(key, "C02:"), detail, cs, func() bool { k, _, _ := c02One(drv, cs.Body, cs.Cfg); return k == key })
 		}
 	}
+	// the same on a machine whose local time zone is east / west of UTC (journal dates and
+	// flag dates are calendar days; every 4th configuration)
+	saved := time.Local
+	defer func() { time.Local = saved }()
+	for _, z := range []*time.Location{time.FixedZone("east", 3600), time.FixedZone("west", -5*3600)} {
+		time.Local = z
+		for i, cfg := range cfgs {
+			if i%4 != 0 || !e.Take() {
+				continue
+			}
+			key, detail, _ := c02One(drv, body, cfg)
+			e.Count("evaluations")
+			e.Count("command_runs")
+			if key != "" {
+				e.Violation("C11:command:"+strings.TrimPrefix(key, "C02:")+":timezone", "local time zone "+z.String()+"\n"+detail, balCase{Body: body, Cfg: cfg}, nil)
+			}
+		}
+	}
+	time.Local = saved
 }
 
 func c11Run(e *core.Env) {
